@@ -596,6 +596,9 @@ ScanPrefix(S) ==
       n == IF dups = {} THEN Len(d) ELSE BGD!Min(dups)
   IN [ i \in 1 .. n |-> << Resources(S)[i].group, Resources(S)[i].binding >> ]
 CONF(c, o) ==
+  (* documented panics of the generator (Structs.tla): runtime-sized arrays without encase / with bytemuck / not last *)
+  IF HasS(c) /\ ValidAll(o) /\ o.ret.kind \in {"ok", "panic"} /\ BGD!Contract(Decls(c.S), [ kind |-> "ok" ]) /\ (o.ret.kind = "panic") # ST!DocumentedPanic(c.S, c.opts)
+  THEN [ dom |-> TRUE, fails |-> { "DRIFT generator " \o (IF o.ret.kind = "panic" THEN "panicked (" \o o.ret.msg \o ")" ELSE "returned Ok") \o " but Structs.tla DocumentedPanic = " \o Str(ST!DocumentedPanic(c.S, c.opts)) } ] ELSE
   IF ~(HasS(c) /\ ParseOk(o) /\ o.ret.kind # "panic" /\ ~ValidatorRejects(c, o)) THEN NoVerdict ELSE
   LET S == c.S
       scans == [ i \in DOMAIN HkOf("bgd.scan") |-> << HkOf("bgd.scan")[i].group, HkOf("bgd.scan")[i].binding >> ]
@@ -659,6 +662,13 @@ Step ==
                call finished early and its remaining turns were skipped) *)
             LET ok == IsSubSeq(e.order, e.schedule) /\ (Len(e.order) = Len(e.schedule) => e.order = e.schedule)
             IN /\ (IF ok THEN TRUE ELSE PrintT("VERDICT " \o ToJson([ prop |-> Enforce, id |-> e.id, family |-> "sched", msg |-> "HOOK recorded interleaving is not the exported schedule" ])))
+               /\ nbad' = nbad + (IF ok THEN 0 ELSE 1) /\ TLCSet(2, nbad')
+               /\ UNCHANGED <<cur, nj, memo, ph, hk>>
+       [] e.ev = "sys" ->
+            (* History.tla: no action touches the environment; Format.tla: exactly one formatter process per call when asked *)
+            LET ok == /\ e.writes = << >> /\ e.nets = << >>
+                      /\ (IF e.rustfmt THEN Len(e.execs) = e.n_calls /\ (\A i \in DOMAIN e.execs : e.execs[i] = "rustfmt") ELSE e.execs = << >>)
+            IN /\ (IF ok THEN TRUE ELSE PrintT("VERDICT " \o ToJson([ prop |-> Enforce, id |-> e.id, family |-> "syscalls", msg |-> "the calling process touched its environment: spawned " \o ToJson(e.execs) \o ", opened for writing " \o ToJson(e.writes) \o ", network " \o ToJson(e.nets) ])))
                /\ nbad' = nbad + (IF ok THEN 0 ELSE 1) /\ TLCSet(2, nbad')
                /\ UNCHANGED <<cur, nj, memo, ph, hk>>
        [] e.ev = "phase" -> ph' = (IF e.name \in Range(PhaseSeq) THEN Append(ph, e.name) ELSE ph) /\ UNCHANGED <<cur, nj, nbad, memo, hk>>
